@@ -63,7 +63,9 @@ def strategy_(draw, tier):
             'derivers_p': draw(st.integers(0, 2)),
             'derivers_s': draw(st.integers(0, 2)),
             'order': list(order), 'ticks': ticks, 'calls': calls,
-            'dotdot': draw(st.integers(0, 9)) == 0}
+            'dotdot': draw(st.integers(0, 9)) == 0,
+            # a process that always returns an empty update
+            'empty_ts': draw(st.sampled_from([None, None, 0.5, 0.75, 1.25]))}
 
 
 def strategy(tier):
@@ -107,6 +109,11 @@ def build(spec, ctx):
         processes[name] = kit.TickProcess({'name': name, 'run_id': ctx.run_id,
                                            'time_step': ts})
         topology[name] = {'clock': ('clock',)}
+    if spec.get('empty_ts'):
+        processes['e0'] = kit.TickProcess({'name': 'e0', 'run_id': ctx.run_id,
+                                           'time_step': spec['empty_ts'],
+                                           'empty': True})
+        topology['e0'] = {'clock': ('clock',)}
     inner_p = {n: mk(n) for n in dp}
     inner_s = {}
     inner_flow = {}
@@ -193,6 +200,23 @@ def check_log(spec, res, ctx, fnames, dp, ds, deps, layer, anc):
         res.fail('phase.unemitted', 'steps or updates after the last emit: %r'
                  % ([e[:3] for e in cur['events']],))
         return
+    # a phase (and a row) at time 0 and at the end of every interval of every
+    # process, nowhere else: interval ends = running sums of the timesteps
+    # handed to each process (intervals are contiguous from time 0)
+    ends = set()
+    acc = {}
+    for ev in ctx.log:
+        if ev[0] == 'invoke':
+            acc[ev[1]] = acc.get(ev[1], 0) + ev[3]
+            ends.add(acc[ev[1]])
+    final = ctx.engine.global_time if ctx.engine is not None else None
+    want_times = [0] + sorted(t for t in ends if final is None or t <= final)
+    got_times = [ph['events'][-1][3].get('time') for ph in phases]
+    if got_times != want_times:
+        res.fail('phase.times', 'step phases/rows at times %r, process '
+                 'intervals end at %r' % (got_times, want_times),
+                 'engine.py:run_for')
+        return
     tick = 0
     prev_stamp = {n: -1 for n in allsteps}
     for k, ph in enumerate(phases):
@@ -218,9 +242,7 @@ def check_log(spec, res, ctx, fnames, dp, ds, deps, layer, anc):
             res.fail('phase.initial', 'updates applied before the initial phase')
             return
         if k > 0 and n_tick == 0:
-            res.fail('phase.empty_batch', 'phase %d without a batch of process '
-                     'updates (steps ran in between batches)' % k)
-            return
+            res.label('phase.empty_updates_only')
         tick += n_tick
         runs = [e for e in evs if e[0] == 'step']
         names = [e[1] for e in runs]
@@ -287,6 +309,7 @@ def check_log(spec, res, ctx, fnames, dp, ds, deps, layer, anc):
                                  'engine.py:run_steps')
                         return
         prev_stamp = {n: tick for n in allsteps}
+        last_tick = tick
 
 
 SIGNATURES = {}
